@@ -40,7 +40,7 @@ def CALL(f, *args, **kws):
 
 
 def BIN(op, a, b):
-    return ("bin", op, a, b)
+    return mkbin(op, a, b)
 
 
 SNAPS = A(A(SELF, "snapshots"), "snapshots")
@@ -52,13 +52,12 @@ def frame(k):
     return SUB(SNAPS, k)
 
 
+_eq_terms_common = eq_terms
+
+
 def eq_terms(a, b):
-    if strip_alloc(a) == strip_alloc(b):
-        return True, "identical terms", None, None
-    tr = S.Translator()
-    x, y = tr.tr(strip_alloc(a)), tr.tr(strip_alloc(b))
-    ok, how = S.decide_equal(x, y)
-    return ok, how, x, y
+    ok, how = _eq_terms_common(canon(a), canon(b))
+    return ok, how, None, None
 
 
 def run(run: Run, pkg: Package) -> None:
